@@ -9,20 +9,14 @@ Proof.
   split; [intros [-> ->]; reflexivity | intros H; injection H; auto].
 Qed.
 
-(* no generated handler reports a success (by computation on the regenerated table) *)
-Lemma table_no_success :
-  forallb (fun h => match h_out h with Some OSuccess => false | _ => true end) generated_handlers = true.
-Proof. vm_compute. reflexivity. Qed.
-
-Lemma handlers_no_success p h :
-  forallb (fun co => negb (outcome_eqb (snd co) OSuccess)) (p_handlers p) = true ->
-  In h (handlers p) -> h_out h <> Some OSuccess.
+(* no exception stands for a success *)
+Lemma outcome_of_no_success p e :
+  forallb (fun co => negb (outcome_eqb (snd co) OSuccess)) (p_handlers p) = true -> outcome_of p e <> OSuccess.
 Proof.
-  intros W Hin. unfold handlers in Hin. apply in_app_or in Hin. destruct Hin as [Hin|Hin].
-  - apply in_map_iff in Hin. destruct Hin as (co & <- & Hco). rewrite forallb_forall in W. specialize (W co Hco).
-    simpl. intros E. injection E as E. rewrite E in W. discriminate.
-  - pose proof table_no_success as T. rewrite forallb_forall in T. specialize (T h Hin).
-    intros E. rewrite E in T. discriminate.
+  intros W. unfold outcome_of, user_claim. destruct (find _ (p_handlers p)) as [co|] eqn:F.
+  - apply find_some in F. destruct F as [Hin _]. rewrite forallb_forall in W. specialize (W co Hin).
+    intros E. rewrite E in W. discriminate.
+  - unfold standard_outcome. repeat (match goal with |- context [if ?c then _ else _] => destruct c end); discriminate.
 Qed.
 
 Lemma outs_of_calls t : outs_of t = outs_of (calls t).
@@ -48,20 +42,20 @@ Lemma verdict_cases p :
   skipped p = false ->
   match raised p with
   | [] => fst (verdict p false) = Some OSuccess
-  | _ => match find (fun e => negb (claims (handlers p) e)) (raised p) with
-         | Some _ => fst (verdict p false) = last_resort
-         | None => fst (verdict p false) = outcome_for (handlers p) (last (raised p) (Exc CFail None))
-                   /\ exists h, In h (handlers p) /\ fst (verdict p false) = h_out h
+  | _ => match find (fun e => negb (claimed p e)) (raised p) with
+         | Some _ => fst (verdict p false) = Some OErr
+         | None => fst (verdict p false) = Some (outcome_of p (last (raised p) (Exc CFail None)))
          end
   end.
 Proof.
   intros S. unfold verdict. rewrite S, (raised_collected p S).
   destruct (raised p) as [|x r] eqn:E; [reflexivity|].
+  rewrite <- (find_ext' _ _ (x :: r) (fun e => f_equal negb (claims_handlers p e))).
   destruct (find _ (x :: r)) as [e|] eqn:F.
-  - rewrite (decide_unclaimed _ _ _ F). reflexivity.
+  - rewrite (decide_unclaimed _ _ _ F). exact table_last_resort.
   - destruct (decide_claimed (handlers p) (x :: r)) as (h & L & D); [discriminate | exact F|].
-    rewrite D. cbn [fst]. unfold outcome_for. rewrite L. split; [reflexivity|].
-    exists h. split; [exact (lookup_in _ _ _ L) | reflexivity].
+    rewrite D. cbn [fst]. pose proof (lookup_handlers p (last (x :: r) (Exc CFail None))) as LH.
+    rewrite L in LH. exact LH.
 Qed.
 
 Lemma raised_nil p : raised p = [] -> raised_by_user p = [] /\ (skipped p = false -> forced p = false).
@@ -89,26 +83,31 @@ Proof.
       unfold success_okb. destruct o; try reflexivity.
       destruct (raised (i_prog i)) as [|x r] eqn:E.
       * destruct (raised_nil _ E) as [H1 H2]. rewrite H1, (H2 S). reflexivity.
-      * exfalso. destruct (find _ (x :: r)).
-        -- rewrite table_last_resort in VC. discriminate.
-        -- destruct VC as (_ & h & Hin & Hh). exact (handlers_no_success _ h Wh Hin (eq_sym Hh)).
+      * exfalso. destruct (find _ (x :: r)); [discriminate|].
+        injection VC as VC. exact (outcome_of_no_success _ _ Wh (eq_sym VC)).
     + (* a single exception maps to its outcome *)
       unfold single_okb. destruct (raised (i_prog i)) as [|x [|y r]] eqn:E; try reflexivity.
-      unfold hs, outcome_for. cbn [find] in VC. unfold outcome_for in VC. cbn [last] in VC.
-      destruct (claims (handlers (i_prog i)) x) eqn:C; cbn [negb] in VC.
-      * destruct VC as [VC _]. rewrite <- VC. apply option_eqb_spec; [exact outcome_eqb_spec | reflexivity].
-      * apply lookup_none in C. rewrite C, <- VC. apply option_eqb_spec; [exact outcome_eqb_spec | reflexivity].
+      cbn [find last] in VC. apply outcome_eqb_spec.
+      destruct (claimed (i_prog i) x) eqn:C; cbn [negb] in VC.
+      * now injection VC.
+      * injection VC as ->. unfold claimed in C. unfold outcome_of.
+        destruct (user_claim (i_prog i) x); [discriminate|].
+        unfold standard_outcome.
+        assert (N : forall d, subclass d CException = true -> subclass (cls_of x) d = false).
+        { intros d Hd. destruct (subclass (cls_of x) d) eqn:Sd; [|reflexivity].
+          unfold isinstance in C. rewrite (subclass_trans _ _ _ Sd Hd) in C. discriminate. }
+        rewrite !N by reflexivity. reflexivity.
     + (* no downgrade, outside F2 *)
-      unfold no_downgrade_okb. unfold finding_F2 in NF. fold (hs i) in VC.
-      destruct (existsb (is_failure_or_error (hs i)) (raised (i_prog i))) eqn:Ex; [|reflexivity].
+      unfold no_downgrade_okb. unfold finding_F2 in NF.
+      destruct (existsb (is_failure_or_error (i_prog i)) (raised (i_prog i))) eqn:Ex; [|reflexivity].
       cbn [andb] in NF. rewrite negb_involutive, andb_diag.
       destruct (raised (i_prog i)) as [|x r] eqn:E; [discriminate|].
-      destruct (find (fun e => negb (claims (hs i) e)) (x :: r)) as [e|] eqn:F.
-      * rewrite table_last_resort in VC. injection VC as ->. reflexivity.
-      * destruct VC as [VC _].
-        assert (All : forallb (claims (hs i)) (x :: r) = true).
+      destruct (find (fun e => negb (claimed (i_prog i) e)) (x :: r)) as [e|] eqn:F.
+      * injection VC as ->. reflexivity.
+      * injection VC as ->.
+        assert (All : forallb (claimed (i_prog i)) (x :: r) = true).
         { apply forallb_forall. intros y Hy. pose proof (find_none _ _ F y Hy) as N. now apply negb_false_iff in N. }
-        rewrite All in NF. cbn [andb] in NF. rewrite <- VC in NF. now apply negb_false_iff in NF.
+        rewrite All in NF. cbn [andb] in NF. now apply negb_false_iff in NF.
 Qed.
 
 Theorem spec_okb_sound i o : spec_okb i o = true -> Spec i o.
@@ -118,12 +117,22 @@ Proof.
   exists k. split; [reflexivity|]. split; [|split].
   - intros ->. unfold success_okb in H1. destruct (raised_by_user (i_prog i)); [|discriminate].
     split; [reflexivity | now apply negb_true_iff in H1].
-  - intros e E. unfold single_okb in H2. rewrite E in H2.
-    apply (option_eqb_spec outcome_eqb outcome_eqb_spec) in H2. now symmetry.
+  - intros e E. unfold single_okb in H2. rewrite E in H2. apply outcome_eqb_spec in H2. now symmetry.
   - intros (e & Hin & He). unfold no_downgrade_okb in H3.
-    assert (Ex : existsb (is_failure_or_error (hs i)) (raised (i_prog i)) = true)
+    assert (Ex : existsb (is_failure_or_error (i_prog i)) (raised (i_prog i)) = true)
       by (apply existsb_exists; exists e; split; assumption).
     rewrite Ex in H3. apply andb_true_iff in H3 as [A B]. split; [exact A | now apply negb_true_iff in B].
+Qed.
+
+(* an exception no handler is responsible for stands for an error *)
+Lemma unclaimed_is_error p e : claimed p e = false -> outcome_of p e = OErr.
+Proof.
+  unfold claimed, outcome_of. destruct (user_claim p e); [discriminate|]. intros C.
+  unfold standard_outcome.
+  assert (N : forall d, subclass d CException = true -> subclass (cls_of e) d = false).
+  { intros d Hd. destruct (subclass (cls_of e) d) eqn:Sd; [|reflexivity].
+    unfold isinstance in C. rewrite (subclass_trans _ _ _ Sd Hd) in C. discriminate. }
+  rewrite !N by reflexivity. reflexivity.
 Qed.
 
 (* C03_success_iff, both directions (the converse needs the test not to be skip-decorated) *)
@@ -131,15 +140,14 @@ Theorem success_iff i :
   wf i = true -> skipped (i_prog i) = false ->
   (o_outs (model i) = [OSuccess] <-> raised_by_user (i_prog i) = [] /\ forced (i_prog i) = false).
 Proof.
-  intros W S. pose proof W as W'. unfold wf in W. apply andb_true_iff in W as [_ Wh].
+  intros W S. unfold wf in W. apply andb_true_iff in W as [_ Wh].
   destruct (model_obs i) as (o & V & ->). cbn [o_outs].
   pose proof (verdict_cases (i_prog i) S) as VC. rewrite V in VC. split.
   - intros H. injection H as ->.
     destruct (raised (i_prog i)) as [|x r] eqn:E.
     + destruct (raised_nil _ E) as [H1 H2]. split; [exact H1 | exact (H2 S)].
-    + exfalso. destruct (find _ (x :: r)).
-      * rewrite table_last_resort in VC. discriminate.
-      * destruct VC as (_ & h & Hin & Hh). exact (handlers_no_success _ h Wh Hin (eq_sym Hh)).
+    + exfalso. destruct (find _ (x :: r)); [discriminate|].
+      injection VC as VC. exact (outcome_of_no_success _ _ Wh (eq_sym VC)).
   - intros [H1 H2]. assert (E : raised (i_prog i) = []).
     { unfold raised, forced_failure. rewrite H1, H2, andb_false_r. reflexivity. }
     rewrite E in VC. injection VC as ->. reflexivity.
@@ -147,38 +155,54 @@ Qed.
 
 (* C03_single *)
 Theorem single_mapping i e :
-  raised (i_prog i) = [e] ->
-  exists o, o_outs (model i) = [o] /\ outcome_for (hs i) e = Some o.
+  raised (i_prog i) = [e] -> o_outs (model i) = [outcome_of (i_prog i) e].
 Proof.
-  intros E. destruct (model_obs i) as (o & V & ->). cbn [o_outs]. exists o. split; [reflexivity|].
+  intros E. destruct (model_obs i) as (o & V & ->). cbn [o_outs].
   assert (S : skipped (i_prog i) = false).
   { destruct (skipped (i_prog i)) eqn:S; [|reflexivity]. rewrite (raised_skipped _ S) in E. discriminate. }
   pose proof (verdict_cases (i_prog i) S) as VC. rewrite V, E in VC. cbn [find last] in VC.
-  unfold hs, outcome_for in *. destruct (claims (handlers (i_prog i)) e) eqn:C; cbn [negb] in VC.
-  - destruct VC as [VC _]. now symmetry.
-  - apply lookup_none in C. rewrite C. now symmetry.
+  destruct (claimed (i_prog i) e) eqn:C; cbn [negb] in VC.
+  - injection VC as ->. reflexivity.
+  - injection VC as ->. now rewrite (unclaimed_is_error _ _ C).
 Qed.
 
 (* C03_no_downgrade_partial: outside F2 a failure or error is never downgraded *)
 Theorem no_downgrade_partial i e :
   finding_F2 i = false ->
-  In e (raised (i_prog i)) -> is_failure_or_error (hs i) e = true ->
+  In e (raised (i_prog i)) -> is_failure_or_error (i_prog i) e = true ->
   exists o, model i = {| o_outs := [o]; o_ok := false |} /\ unsuccessful o = true.
 Proof.
   intros NF Hin He. destruct (model_obs i) as (o & V & ->). exists o.
   assert (S : skipped (i_prog i) = false).
   { destruct (skipped (i_prog i)) eqn:S; [|reflexivity]. rewrite (raised_skipped _ S) in Hin. contradiction. }
-  pose proof (verdict_cases (i_prog i) S) as VC. rewrite V in VC. fold (hs i) in VC.
-  assert (Ex : existsb (is_failure_or_error (hs i)) (raised (i_prog i)) = true)
+  pose proof (verdict_cases (i_prog i) S) as VC. rewrite V in VC.
+  assert (Ex : existsb (is_failure_or_error (i_prog i)) (raised (i_prog i)) = true)
     by (apply existsb_exists; exists e; split; assumption).
   unfold finding_F2 in NF. rewrite Ex in NF. cbn [andb] in NF.
   assert (U : unsuccessful o = true).
   { destruct (raised (i_prog i)) as [|x r] eqn:E; [contradiction|].
-    destruct (find (fun e => negb (claims (hs i) e)) (x :: r)) as [e'|] eqn:F.
-    - rewrite table_last_resort in VC. injection VC as ->. reflexivity.
-    - destruct VC as [VC _].
-      assert (All : forallb (claims (hs i)) (x :: r) = true).
+    destruct (find (fun e => negb (claimed (i_prog i) e)) (x :: r)) as [e'|] eqn:F.
+    - injection VC as ->. reflexivity.
+    - injection VC as ->.
+      assert (All : forallb (claimed (i_prog i)) (x :: r) = true).
       { apply forallb_forall. intros y Hy. pose proof (find_none _ _ F y Hy) as N. now apply negb_false_iff in N. }
-      rewrite All in NF. cbn [andb] in NF. rewrite <- VC in NF. now apply negb_false_iff in NF. }
+      rewrite All in NF. cbn [andb] in NF. now apply negb_false_iff in NF. }
   rewrite U. split; reflexivity.
+Qed.
+
+(* inside F2 the statement fails: the finding is exactly the class of inputs where it does *)
+Theorem downgrade_inside_F2 i :
+  finding_F2 i = true -> spec_okb i (model i) = false.
+Proof.
+  intros F2. destruct (model_obs i) as (o & V & ->). unfold spec_okb. cbn [o_outs o_ok].
+  unfold finding_F2 in F2. apply andb_true_iff in F2 as [F2 Hl]. apply andb_true_iff in F2 as [Ex All].
+  assert (S : skipped (i_prog i) = false).
+  { destruct (skipped (i_prog i)) eqn:S; [|reflexivity]. rewrite (raised_skipped _ S) in Ex. discriminate. }
+  pose proof (verdict_cases (i_prog i) S) as VC. rewrite V in VC.
+  destruct (raised (i_prog i)) as [|x r] eqn:E; [discriminate|].
+  assert (F : find (fun e => negb (claimed (i_prog i) e)) (x :: r) = None).
+  { destruct (find _ (x :: r)) as [e|] eqn:F; [|reflexivity]. apply find_some in F. destruct F as [Hin Hb].
+    rewrite forallb_forall in All. rewrite (All e Hin) in Hb. discriminate. }
+  rewrite F in VC. set (lst := last (x :: r) (Exc CFail None)) in *. injection VC as ->.
+  unfold no_downgrade_okb. rewrite E, Ex. apply negb_true_iff in Hl. rewrite Hl. cbn [andb]. apply andb_false_r.
 Qed.
